@@ -310,11 +310,12 @@ def subset_check(ck, n):
     cases, runs = [], []
     for _ in range(n):
         c = gen.gen_solver_case(ck.rng, ck.tier, strats=("filter", "fixedpoint"), qmax=4, max_steps=2)
-        tame(c)
         c["routine"] = "adaptive"
         c["damp"] = Fr(0)
         t0 = c["grid"][0]
         t1 = t0 + Fr(ck.rng.choice([1, 2, 3]), 2)
+        # no finite-time blow-up on [t0, t1] (an adaptive solve of a blowing-up solution never terminates)
+        gen.bound_field(c, max(abs(t0), abs(t1)) + (t1 - t0))
         inner = sorted({t0 + (t1 - t0) * Fr(ck.rng.randint(1, 63), 64) for _ in range(ck.rng.randint(2, 7))})
         if ck.rng.random() < 0.4 and len(inner) >= 2:
             inner.append(inner[0] + Fr(1, 2 ** 40))       # two checkpoints closer than eps
